@@ -1,5 +1,6 @@
 import IxpeVerif.RealInst
 import IxpeVerif.Gen.Formulas
+import IxpeVerif.Gen.ImpR
 import IxpeVerif.Model.Polarization
 import IxpeVerif.Lemmas.Basic
 import Mathlib.Analysis.SpecialFunctions.Trigonometric.Angle
@@ -127,6 +128,61 @@ theorem harmonic_perm_invariant {p q : List Comp} (h : p.Perm q) : Pol.harmonicA
   have hC : Csum p = Csum q := (h.map _).sum_eq
   have hS : Ssum p = Ssum q := (h.map _).sum_eq
   rw [Asq_eq, Asq_eq, hF, hC, hS]
+
+/-! ### T-tie: the loops of `harmonic_addition` regenerated from the source (`Gen/ImpR.lean`, translator/realimp.py) -/
+
+def toT (c : Comp) : ℝ × ℝ × ℝ := (c.F, c.m, c.d)
+
+/-- the inner loop over `j` adds the cross terms of component `i` to the running `A²` -/
+theorem inner_fold (Ai di : ℝ) (g : ℝ → ℝ × ℝ × ℝ → ℝ)
+    (hg : ∀ a Fj mj dj, g a (Fj, mj, dj) = a + Ai * (Fj * mj) * Real.cos (2 * (di - dj))) :
+    ∀ (l : List Comp) (a : ℝ), (l.map toT).foldl g a = a + (l.map fun cj => Ai * (cj.F * cj.m) * Real.cos (2 * (di - cj.d))).sum
+  | [], a => by simp
+  | c :: rest, a => by
+    simp only [List.map_cons, List.foldl_cons, List.sum_cons, toT, hg]
+    rw [inner_fold Ai di g hg rest]; ring
+
+/-- the outer loop over `i`: flux, numerator, denominator and `A²` after the components of `l`, the inner loop running over all of `P` -/
+theorem outer_fold (P : List Comp) (f : ℝ × ℝ × ℝ × ℝ → ℝ × ℝ × ℝ → ℝ × ℝ × ℝ × ℝ)
+    (hf : ∀ F n d A Fi mi di, f (F, n, d, A) (Fi, mi, di) =
+      (F + Fi, n + Fi * mi * Real.sin (2 * di), d + Fi * mi * Real.cos (2 * di),
+        A + (P.map fun cj => (Fi * mi) * (cj.F * cj.m) * Real.cos (2 * (di - cj.d))).sum)) :
+    ∀ (l : List Comp) (F n d A : ℝ), (l.map toT).foldl f (F, n, d, A) =
+      (F + Fsum l, n + Ssum l, d + Csum l,
+        A + (l.map fun ci => (P.map fun cj => (ci.F * ci.m) * (cj.F * cj.m) * Real.cos (2 * (ci.d - cj.d))).sum).sum)
+  | [], F, n, d, A => by simp [Fsum, Ssum, Csum]
+  | c :: rest, F, n, d, A => by
+    simp only [List.map_cons, List.foldl_cons, toT, hf]
+    rw [outer_fold P f hf rest]
+    simp only [Fsum, Ssum, Csum, List.map_cons, List.sum_cons, toT]
+    refine Prod.ext ?_ (Prod.ext ?_ (Prod.ext ?_ ?_)) <;> simp only <;> ring
+
+/-- **the generated `harmonic_addition` is the model**: the accumulators and the double loop of the source, translated statement by statement,
+return the model's (F, A/F, ½ atan2) for every list of components -/
+theorem gen_harmonic_addition_eq_model (ps : List Comp) :
+    Gen.ImpR.harmonic_addition (ps.map toT) = Pol.harmonicAddition ps := by
+  rw [harmonicAddition_real]
+  have e2 : (2.0:ℝ) = 2 := by norm_num
+  have e0 : (0.0:ℝ) = 0 := by norm_num
+  simp only [Gen.ImpR.harmonic_addition, Np.loopR]
+  rl_simp
+  simp only [e2, e0]
+  rw [outer_fold ps _ ?_ ps 0 0 0 0]
+  · simp only [zero_add, Asq]
+  · intro F n d A Fi mi di
+    simp only
+    rw [inner_fold (Fi * mi) di _ (fun a Fj mj dj => rfl) ps A]
+
+/-- the headline statement on the current source: the generated routine returns the flux-weighted sum of the Stokes vectors -/
+theorem gen_harmonic_addition_is_stokes_sum (ps : List Comp) (hF : Fsum ps ≠ 0) (hA : (⟨Csum ps, Ssum ps⟩ : ℂ) ≠ 0) :
+    let r := Gen.ImpR.harmonic_addition (ps.map toT)
+    r.1 = Fsum ps ∧ r.1 * r.2.1 * Real.cos (2 * r.2.2) = Csum ps ∧ r.1 * r.2.1 * Real.sin (2 * r.2.2) = Ssum ps := by
+  rw [gen_harmonic_addition_eq_model]; exact harmonic_addition_is_stokes_sum ps hF hA
+
+/-- … independent of the order of the components -/
+theorem gen_harmonic_perm_invariant {p q : List Comp} (h : p.Perm q) :
+    Gen.ImpR.harmonic_addition (p.map toT) = Gen.ImpR.harmonic_addition (q.map toT) := by
+  rw [gen_harmonic_addition_eq_model, gen_harmonic_addition_eq_model]; exact harmonic_perm_invariant h
 
 /-! ### radial and tangential fields are everywhere orthogonal -/
 
